@@ -113,6 +113,7 @@ def scenarios():
     from . import scenarios4  # noqa: F401
     from . import scenarios5  # noqa: F401
     from . import scenarios6  # noqa: F401
+    from . import scenarios7  # noqa: F401
     return sc.SCENARIOS
 
 
